@@ -88,8 +88,10 @@ def pspL2EntryType : Nat := 0x40
 def biosL2EntryType : Nat := 0x70
 def dirHeaderSize : Nat := 16
 def pspEntrySize : Nat := 16
-/-- the constant `BIOSDirectoryTableEntrySize` of the source: 16, although a BIOS entry has 24 bytes -/
-def biosEntrySizeConst : Nat := 16
+/-- the constant `BIOSDirectoryTableEntrySize` of the source, used by the size pre-check of
+    ParseBIOSDirectoryTable: 24 since fixes/C20-amd-bios-scan-quadratic.diff (16 before, although a BIOS
+    entry has 24 bytes: a table could pass the pre-check and then run out of data) -/
+def biosEntrySizeConst : Nat := 24
 /-- what ParseBIOSDirectoryTableEntry really consumes -/
 def biosEntrySize : Nat := 24
 
